@@ -1,13 +1,16 @@
 /-
 Proofs/AgreeFnInterface.lean — the string-level entry points of src/interface/mod.rs as translated on this
 run (`Generated/FnInterface.lean`) equal the Model's `runString` (`Model/Interface.lean`), for all
-source strings and states. `token::tokenize` and `tree::tokens_to_operator_tree` are boundary calls
-(mapped to the Model's `tokenize` / `tokensToOperatorTree`); `build_operator_tree` itself is translated.
+source strings and states. `token::tokenize` is a boundary call (mapped to the Model's `tokenize`);
+`tree::tokens_to_operator_tree` is a TRANSLATED callee (`Gen.tokens_to_operator_tree`, `Option`-valued: it contains
+loops), called through `Rs.converged`, and replaced by the Model's `tokensToOperatorTree` with
+`fn_tokens_to_operator_tree_agree` (Proofs/AgreeFnTokensToTree.lean); `build_operator_tree` itself is translated.
 Typed results are compared through the embedding of the payload into `Value` (see AgreeFnTree).
 -/
 import EvalexprVerif.Generated.FnInterface
 import EvalexprVerif.Translate.Lemmas
 import EvalexprVerif.Proofs.AgreeFnTree
+import EvalexprVerif.Proofs.AgreeFnTokensToTree
 import EvalexprVerif.Model.Interface
 
 set_option linter.unusedSimpArgs false
@@ -16,7 +19,7 @@ namespace Evalexpr.AgreeFn
 open Evalexpr
 
 theorem fn_build_operator_tree_agree (src : Str) : Gen.build_operator_tree src = buildOperatorTree src := by
-  simp only [Gen.build_operator_tree, buildOperatorTree]
+  simp only [Gen.build_operator_tree, buildOperatorTree, fn_tokens_to_operator_tree_agree, Rs.converged_some]
   generalize tokenize src = t
   rcases t with _ | ts <;> rfl
 
@@ -28,7 +31,7 @@ theorem project_value (r : Res Value) : Kind.value.project r = r := by
 /-- the untyped string-level evaluators: tokenize, build (early return on error), evaluate the tree -/
 macro "untyped_string" : tactic => `(tactic| (
   simp only [Gen.eval_with_context, Gen.eval_with_context_mut, Gen.eval, Rs.call_fresh, runString,
-    fn_build_operator_tree_agree, buildOperatorTree,
+    fn_build_operator_tree_agree, buildOperatorTree, fn_tokens_to_operator_tree_agree, Rs.converged_some,
     runTree, runTreeUntyped, project_value, fn_HashMapContext_new_agree, St.fresh]
   generalize tokenize _ = t
   rcases t with _ | ts
